@@ -26,6 +26,7 @@ RULE = ("cases = operation histories of 1-7 steps over {iloc, loc, boolean mask,
 ASSUMPTIONS = ["a column subset that drops the active column but keeps other geometry columns is "
                "not constrained by the statement: the model is re-synchronised from the frame there",
                "cx / sjoin themselves are decided by C04 / C05; here only *which column* they use"]
+USE_CONTRACTS = True      # in-situ icontract monitors (vmon/contracts.py)
 DECIDING_COUNTERS = ["state_checks", "spatial_checks"]
 
 OPS = ["iloc", "loc", "mask", "head", "sort", "copy", "subset_with", "subset_without_active",
